@@ -39,15 +39,30 @@ class Entry(object):
 class Store(object):
     """State of the database as the statement describes it."""
 
-    def __init__(self, strategy, force=()):
+    def __init__(self, strategy, force=(), link_keys=()):
         assert strategy in STRATEGIES
         self.strategy = strategy
         self.force = list(force)
+        self.link_keys = tuple(link_keys)   # attribute keys that carry the links (only for the statistics)
         self.feats = {}     # key -> Entry        (insertion order = filing order)
         self.spawn = {}     # key -> [fresh keys filed because of this key]   ('merge' only)
         self.n = {}         # key -> last n used for '<key>_n'
         self.log = []       # one word per arrival: what happened to it
         self.count = 0
+        self.batch = 0      # index of the import run (0 = create_db) the next arrival belongs to
+        self.runs = []      # per arrival: index of the import run
+        self.stats = {}     # what the history exercised (valueless keys met in a union, '.' coordinates in a collision)
+
+    def _stat(self, name):
+        self.stats[name] = self.stats.get(name, 0) + 1
+
+    def _log(self, word):
+        self.log.append(word)
+        self.runs.append(self.batch)
+
+    def collision_runs(self):
+        """Import runs (0 = create_db, i = i-th update) in which some arrival met an occupied key."""
+        return sorted(set(r for r, w in zip(self.runs, self.log) if w != "new"))
 
     def _fresh(self, key):
         n = self.n.get(key, 0) + 1
@@ -67,21 +82,30 @@ class Store(object):
         st = self.strategy
         if key not in self.feats:
             self.feats[key] = Entry(rec, self.force if st == "merge" else (), arrival)
-            self.log.append("new")
+            self._log("new")
             return key
+        for c in ("start", "end"):
+            a, b = self.feats[key].cols[c], rec[c]
+            if a == "." and b == ".":
+                self._stat("collision: %s is '.' on both (columns agree)" % c)
+            elif a == "." or b == ".":
+                self._stat("collision: %s is '.' on one side only (columns differ)" % c)
         if st == "error":
             raise Abort(key)
         if st == "warning":
-            self.log.append("ignored")
+            self._log("ignored")
             return None
         if st == "replace":
+            for lk in self.link_keys:
+                if self.feats[key].attrs.get(lk) != dict((k, v) for k, v in rec["attrs"]).get(lk):
+                    self._stat("replace: the replacement's %s link differs from the replaced feature's" % lk)
             self.feats[key] = Entry(rec, (), arrival)     # keeps the last
-            self.log.append("replaced")
+            self._log("replaced")
             return key
         if st == "create_unique":
             new = self._fresh(key)
             self.feats[new] = Entry(rec, (), arrival)
-            self.log.append("unique")
+            self._log("unique")
             return new
         # ---- merge
         cands = [key] + list(self.spawn.get(key, []))
@@ -92,10 +116,21 @@ class Store(object):
             new = self._fresh(key)
             self.feats[new] = Entry(rec, self.force, arrival)
             self.spawn.setdefault(key, []).append(new)
-            self.log.append("spawned" if cands == [key] else "spawned past %d candidates" % len(cands))
+            self._log("spawned" if cands == [key] else "spawned past %d candidates" % len(cands))
             return new
         tgt = agreeing[0]
         e = self.feats[tgt]
+        new = dict((k, v) for k, v in rec["attrs"])
+        for k in set(new) | set(e.attrs):
+            old_v, new_v = e.attrs.get(k), new.get(k)
+            if old_v == [] and new_v is None:
+                self._stat("union: valueless key on the stored feature only")
+            elif new_v == [] and old_v is None:
+                self._stat("union: valueless key on the newcomer only")
+            elif old_v == [] and new_v == []:
+                self._stat("union: valueless key on both")
+            elif old_v == [] or new_v == []:
+                self._stat("union: valueless key meets the same key with values")
         for k, vals in rec["attrs"]:
             have = e.attrs.setdefault(k, [])
             for v in vals:
@@ -107,7 +142,7 @@ class Store(object):
             e.forced[c].add(rec[c])
         e.arrivals.append(arrival)
         e.merged = True
-        self.log.append("merged into key" if tgt == key else "merged into spawn")
+        self._log("merged into key" if tgt == key else "merged into spawn")
         return tgt
 
     # ---- what must be in the database ------------------------------------
@@ -134,11 +169,12 @@ class Store(object):
         return rows
 
 
-def run(strategy, force, batches, idkey):
+def run(strategy, force, batches, idkey, link_keys=()):
     """Feed batches of records.  -> (store, outcome) with outcome = ("ok", None) | ("abort", batch index) |
     ("silent", why)."""
-    s = Store(strategy, force)
+    s = Store(strategy, force, link_keys)
     for bi, batch in enumerate(batches):
+        s.batch = bi
         for rec in batch:
             key = dict((k, v) for k, v in rec["attrs"])[idkey][0]
             try:
